@@ -1,6 +1,9 @@
 (* C16 - the System Z ranking object. *)
 From InfOCF Require Import Core Tol SysZ Kz Form Model Spec Diag Ocf ThmZocf ThmZocfExt.
 From InfOCFProps Require Import Ex.
+From InfOCF Require Import PyLib TieSolver TieZocf.
+From InfOCFGen Require Import SrcZocf.
+From Coq Require Import ZArith.
 
 (* the object's recursion from the top layer computes the Z-rank of C02 *)
 Theorem C16_rank_is_kz : forall P w, zrank_of P w = kz world P w.
@@ -45,6 +48,14 @@ Theorem C16_accepts_finite_layers : forall n fin0 Cinf0 D c, part_ext n D = Some
   obj_accept n fin0 Cinf0 c = true.
 Proof. exact object_accepts_finite_layers. Qed.
 Print Assumptions C16_accepts_finite_layers.
+
+(* SOURCE TIE.  py_SystemZPreOCF_z_part2ocf (with _rec_z_rank) is GENERATED on every run from /repo's preocf.py
+   (coq/gen/SrcZocf.v): for every signature size, non-empty partition and world of the signature it returns the
+   Z-rank kz of the world, the descending recursion terminating within one round per layer. *)
+Theorem C16_source_rank_is_kz : forall n w, In w (worlds n) -> forall Pc, Pc <> [] ->
+  py_SystemZPreOCF_z_part2ocf n (S (length Pc)) Pc w = Return (Z.of_nat (kz world (acP Pc) w)).
+Proof. exact tie_z_part2ocf_kz. Qed.
+Print Assumptions C16_source_rank_is_kz.
 
 Example birds_object : (match zocf_partition 4 None [] birds with Some P => map snd (zrun 4 P (cache0 4) [ORank 5; OFrank (v 1); OAccept q_wp]) | None => [] end)
    = [VNat 2; VOpt (Some 1); VBool false]
